@@ -42,9 +42,12 @@ def run(ctx):
     # interleaved qualifiers / storage classes: every sequence once per context in the thorough tier, a third in quick
     for c in "vpft":
         for j, s in enumerate(seqs):
-            if ctx.quick and (j + ord(c)) % 3:
+            if ctx.quick and len(s) > 3 and (j + ord(c)) % 3:
                 continue
             lines.append("%s %s" % (c, " ".join(interleave(ctx.rng, s, c)).encode().hex()))
+            if len(s) <= 3:        # and deterministically with one qualifier at every gap
+                for g in range(len(s) + 1):
+                    lines.append("%s %s" % (c, " ".join(list(s[:g]) + [("const", "volatile")[(g + j) % 2]] + list(s[g:])).encode().hex()))
     # longer random sequences (every sequence of length >= 5 must be diagnosed)
     for _ in range(5000 if ctx.quick else 40000):
         n = ctx.rng.randrange(5, 8)
